@@ -25,7 +25,9 @@ RECURSIVE TokStrings(_)
 TokStrings(n) == IF n = 0 THEN {<<>>}
                  ELSE LET S == TokStrings(n - 1) IN S \cup {s \o t : s \in S, t \in Tokens}
 
-Inputs == IF Mode = "chars" THEN UNION {[1..n -> CharAlphabet] : n \in 0..MaxLen} ELSE TokStrings(MaxLen)
+\* (chars: enumerated per length straight from the function sets - TLC refuses to BUILD a set of more
+\*  than 10^6 elements, and 14^6 strings are 7.5 million)
+RawOk(r) == IF Mode = "chars" THEN \E n \in 0..MaxLen : r \in [1..n -> CharAlphabet] ELSE r \in TokStrings(MaxLen)
 
 \* d: decoded selector; cls/url/hostile: its classification; oh/oroute/oresp/olsel: predicted
 \* outcome (Handlers!Dispatch); mv: first model-level clause that fails for this case, or "ok".
@@ -48,7 +50,7 @@ Result(h, fr, r) ==
 NoResult == [d |-> <<>>, cls |-> "", url |-> FALSE, hostile |-> FALSE, oh |-> "", oroute |-> "", oresp |-> "",
              olsel |-> <<>>, mv |-> "ok"]
 
-Init == /\ phase = "new" /\ hl \in Lists /\ frame \in Frames /\ raw \in Inputs /\ res = NoResult
+Init == /\ phase = "new" /\ hl \in Lists /\ frame \in Frames /\ RawOk(raw) /\ res = NoResult
 
 Compute ==
     /\ phase = "new" /\ phase' = "done"
